@@ -1,12 +1,14 @@
 /-
-  C03 — A run sees exactly the data of the event that caused it.  **Violated by the pinned code (finding F1).**
+  C03 — A run sees exactly the data of the event that caused it.  **Holds after the repair of finding F1** (`/repo`: every
+  queued reaction carries a ticket and the access trackers look prepared metadata up by ticket, not by system).
 
-  The command that causes a run carries (as ghost data of its `Kind`) the metadata it prepared; `claimedOwn s k` says
-  the tracker `start` claimed exactly that metadata. `C03_partial`: whenever the claim is exact and only the command's
-  own trackers are flagged, every reader returns exactly the command's own event and every other reader returns
-  nothing. `start_exact_of_single`: the claim is exact whenever no other entry for the same system is pending in the
-  tracker. `C03_false`: with three or more entries pending for one system the claim order is not the sending order
-  (`swap_remove`) — the witness X1 of DESIGN §8, replayed on `/repo` by `corpus/f1_sysevents_1432.scn`.
+  The command that causes a run carries (as data of its `Kind`) the metadata it prepared; `claimedOwn s k` says the
+  tracker `start` claimed exactly that metadata. `C03_partial_*`: whenever the claim is exact and only the command's own
+  trackers are flagged, every reader returns exactly the command's own event and every other reader returns nothing.
+  `C03_all`: along **every** execution the claim is exact and the flags are exactly the command's, at every run of every
+  command — first run or replay, at any depth, however many events are pending for the same system. `claims_in_sending_order`:
+  the witness that the pinned code got wrong (four system events pending for one system, read 1,4,3,2) is now read 1,2,3,4
+  whatever the order in which the runs start.
 -/
 import Cobweb.Proofs.Trackers
 import Cobweb.Proofs.PendingD
@@ -20,7 +22,7 @@ def FlagsFor (s : St) : Kind → Prop
   | .bcEv _ => s.trkSys.reacting = false ∧ s.trkEvt.reacting = true ∧ s.trkEnt.reacting = false ∧ s.trkDsp.reacting = false
   | .entEv _ _ => s.trkSys.reacting = false ∧ s.trkEvt.reacting = true ∧ s.trkEnt.reacting = true ∧ s.trkDsp.reacting = false
   | .entReact _ _ => s.trkSys.reacting = false ∧ s.trkEvt.reacting = false ∧ s.trkEnt.reacting = true ∧ s.trkDsp.reacting = false
-  | .dspReact _ => s.trkSys.reacting = false ∧ s.trkEvt.reacting = false ∧ s.trkEnt.reacting = false ∧ s.trkDsp.reacting = true
+  | .dspReact _ _ => s.trkSys.reacting = false ∧ s.trkEvt.reacting = false ∧ s.trkEnt.reacting = false ∧ s.trkDsp.reacting = true
 
 /-! The readers, one by one (`observe` just tabulates them per type). -/
 
@@ -105,11 +107,13 @@ theorem C03_partial_entityReaction (s : St) (src : Nat) (rt : RType) (hc : claim
          fun ty => readData_idle s _ _ ty h1, h4⟩
 
 /-- **C03 (partial), despawn** and **manual run**. -/
-theorem C03_partial_despawn (s : St) (src : Nat) (hc : claimedOwn s (.dspReact src) = true) (hf : FlagsFor s (.dspReact src)) :
+theorem C03_partial_despawn (s : St) (src : Nat) (hd : Handle) (hc : claimedOwn s (.dspReact src hd) = true)
+    (hf : FlagsFor s (.dspReact src hd)) :
     s.trkDsp.curSrc = src ∧ (∀ kd ty, readData s s.trkEvt kd ty = none) ∧ (∀ ty, readData s s.trkSys .sys ty = none) ∧
     (∀ k ty, readEnt s k ty = none) := by
   obtain ⟨h1, h2, h3, _⟩ := hf
-  exact ⟨by simpa [claimedOwn] using hc, fun kd ty => readData_idle s _ _ ty h2, fun ty => readData_idle s _ _ ty h1,
+  simp only [claimedOwn, Bool.and_eq_true, beq_iff_eq] at hc
+  exact ⟨hc.1, fun kd ty => readData_idle s _ _ ty h2, fun ty => readData_idle s _ _ ty h1,
          fun k ty => readEnt_idle s k ty h3⟩
 
 theorem C03_manual_run_sees_nothing (s : St) (hf : FlagsFor s .plain) :
@@ -118,41 +122,36 @@ theorem C03_manual_run_sees_nothing (s : St) (hf : FlagsFor s .plain) :
   obtain ⟨h1, h2, h3, h4⟩ := hf
   exact ⟨fun kd ty => readData_idle s _ _ ty h2, fun ty => readData_idle s _ _ ty h1, fun k ty => readEnt_idle s k ty h3, h4⟩
 
-/-- The claim is exact whenever the command's entry is the first one prepared for its system — in particular whenever
-    no other event is pending for that system in the tracker (all non-recursive programs). -/
-theorem claim_exact_of_first (t : TrkData) (sys d : Nat) (pre post : List (Nat × Nat))
-    (hp : t.prepared = pre ++ (sys, d) :: post) (hpre : ∀ x ∈ pre, x.1 ≠ sys) : (t.start sys).cur = d :=
-  (TrkData.start_claims_first t sys pre d post hp hpre).2
+/-- The claim is exact whenever the command's entry is there — whatever else is pending for the same system. -/
+theorem claim_exact_of_present (t : TrkData) (sys d : Nat) (h : (sys, d) ∈ t.prepared) : (t.start sys d).cur = d :=
+  (TrkData.start_claims_own t sys d h).2.1
 
-/-- **C03 is false of the pinned code** (finding F1, witness X1): four entries prepared for one system, in sending order
-    1,2,3,4, are claimed by four successive `start`s in the order 1,4,3,2 — `swap_remove` moves the last entry into the
-    hole. Each run then reads another event's payload. -/
-def claimOrder : Nat → TrkData → Nat → List Nat
-  | 0, _, _ => []
-  | n + 1, t, sys => (t.start sys).cur :: claimOrder n (t.start sys) sys
+/-- The order in which successive `start`s (one per pending command, each with its own ticket) read their events. -/
+def claimOrder : List Nat → TrkData → Nat → List Nat
+  | [], _, _ => []
+  | d :: ds, t, sys => (t.start sys d).cur :: claimOrder ds (t.start sys d) sys
 
-theorem C03_false : claimOrder 4 { prepared := [(7, 1), (7, 2), (7, 3), (7, 4)] } 7 = [1, 4, 3, 2] := by decide
+/-- The witness of the repaired finding F1: four entries prepared for one system. The pinned code read them in the order
+    1,4,3,2 (`swap_remove`); now each run reads its own, in whatever order the runs start. -/
+theorem claims_in_sending_order : claimOrder [1, 2, 3, 4] { prepared := [(7, 1), (7, 2), (7, 3), (7, 4)] } 7 = [1, 2, 3, 4] := by decide
+theorem claims_in_any_order : claimOrder [3, 1, 4, 2] { prepared := [(7, 1), (7, 2), (7, 3), (7, 4)] } 7 = [3, 1, 4, 2] := by decide
 
 /-- Non-vacuity of the partial theorems: a state in which a broadcast claim is exact. -/
 example : claimedOwn ({ trkEvt := { reacting := true, cur := 5, prepared := [] } } : St) (.bcEv 5) = true ∧
     FlagsFor ({ trkEvt := { reacting := true, cur := 5, prepared := [] } } : St) (.bcEv 5) := by
   simp [claimedOwn, FlagsFor]
 
-/-- **C03 for every execution without ambiguity (whole executions).** Take any program and any history such that, along
-    the execution, no two commands that wait for the same access tracker target the same system (`Unamb`; the pinned
-    code violates C03 exactly when this fails — finding F1). Then whenever the runner is about to run the target of a
-    command — at any depth of any reaction tree, first run or replay of a postponed command — the trackers after the
-    command's `setup` hold exactly the metadata this command prepared (`claimedOwn`) and exactly the trackers of the
-    command's kind are flagged (`FlagsFor`): by the partial theorems above every reader of the run returns the causing
-    event's own data and every other reader returns nothing. -/
-theorem C03_unambiguous (p : Prog) (h : Hist) {s : St} (hU : ∀ s', Reach p h ({} : St) s' → Unamb s')
-    (hr : Reach p h ({} : St) s) {sys idx : Nat} {k : Kind} {rest : List Frame}
+/-- **C03 for every execution.** Take any program and any history. Whenever the runner is about to run the target of a
+    command — at any depth of any reaction tree, first run or replay of a postponed command, with any number of events of
+    any kinds pending for the same system — the trackers after the command's `setup` hold exactly the metadata this
+    command prepared (`claimedOwn`) and exactly the trackers of the command's kind are flagged (`FlagsFor`): by the partial
+    theorems above every reader of the run returns the causing event's own data and every other reader returns nothing. -/
+theorem C03_all (p : Prog) (h : Hist) {s : St} (hr : Reach p h ({} : St) s) {sys idx : Nat} {k : Kind} {rest : List Frame}
     (hst : s.stack = Frame.runnerLookup sys k idx :: rest) :
     claimedOwn (setupK { s with stack := rest, storage := upd s.storage sys (some false), counter := s.counter + 1 } k sys) k = true ∧
     FlagsFor (setupK { s with stack := rest, storage := upd s.storage sys (some false), counter := s.counter + 1 } k sys) k := by
-  have hD := pendD_reach p h pendD_default hU hr
-  have hu := hU s hr
-  refine ⟨claim_exact hD hu hst _ rfl rfl rfl rfl, ?_⟩
+  have hD := pendD_reach p h pendD_default hr
+  refine ⟨claim_exact hD hst _ rfl rfl rfl rfl, ?_⟩
   -- the flags
   obtain ⟨_, _, f⟩ := all_reach p h ctl_default once_default flag_default hr
   have htop := f.top; rw [hst] at htop
@@ -174,14 +173,21 @@ theorem C03_unambiguous (p : Prog) (h : Hist) {s : St} (hU : ∀ s', Reach p h (
         rw [prepD_of_trk e1 e2 e3 e4]
         have := hD T
         simpa [allPending, hst, stackPending_cons, framePending] using this
-      have hn : (pend (uses T) (s.buffered ++ (sys, k) :: stackPending rest)).Nodup := by
-        have := hu T
-        simpa [allPending, hst, stackPending_cons, framePending] using this
-      simpa using ((pendD_setup T h0 hn).2 key hk).2
+      simpa using ((pendD_setup T h0).2 key hk).2
   have a := hflag .sys; have b := hflag .evt; have c := hflag .ent; have d := hflag .dsp
   cases k <;> simp [reactingOf, keyOf] at a b c d <;> exact ⟨a, b, c, d⟩
 
-/-- Non-vacuity: the empty world satisfies the invariant and is unambiguous. -/
-example : PendD ({} : St) ∧ Unamb ({} : St) := ⟨pendD_default, unamb_default⟩
+/-- **No run ever reads another command's metadata**: the ghost event `misclaim` (emitted by the prologue of a body whose
+    `setup` claimed something else than its own command's entry) never occurs, in any execution. -/
+theorem no_misclaim_step (p : Prog) (h : Hist) {s : St} (hr : Reach p h ({} : St) s) {sys idx : Nat} {k : Kind} {rest : List Frame}
+    (hst : s.stack = Frame.runnerLookup sys k idx :: rest) :
+    preBody { s with stack := rest, storage := upd s.storage sys (some false), counter := s.counter + 1 } sys k =
+      ((setupK { s with stack := rest, storage := upd s.storage sys (some false), counter := s.counter + 1 } k sys).emit (.enter sys)).emit
+        (.expect sys (expectObs ((setupK { s with stack := rest, storage := upd s.storage sys (some false), counter := s.counter + 1 } k sys).emit (.enter sys)) k
+          (ewrOf ((setupK { s with stack := rest, storage := upd s.storage sys (some false), counter := s.counter + 1 } k sys).emit (.enter sys)) sys))) :=
+  preBody_exact _ sys k (C03_all p h hr hst).1
+
+/-- Non-vacuity: the empty world satisfies the invariant. -/
+example : PendD ({} : St) := pendD_default
 
 end Cobweb.C03
